@@ -665,6 +665,8 @@ class TaskHandler(PoolThread):
                     job, ind = task[1][:2]
                     if job in cache:
                         cache[job]._set(ind + 1, (False, ExceptionInfo()))
+                        # the error is one more item of the result
+                        i = ind + 1
                 if set_length:
                     util.debug('doing set_length()')
                     set_length(i + 1)
